@@ -63,6 +63,22 @@ func runHistProp(o *Options, prop string, prof *Profile, quickN, thoroughN int, 
 		hs = append(hs, h)
 	}
 	if prop == "C05" {
+		// contexts that never hold a variable: a render stops inside a bound tag / a loop / an include,
+		// the context goes through Reset or the pool, plain text with quotes and markup follows
+		id0 := n + 1000
+		firsts := []string{`{% jsonquote %}say "a"{% exit %} and "b"{% endjsonquote %}`, `{% htmlescape %}<b>{% for i := 0; i < 3; i++ %}{% exit %}{% endfor %}`,
+			`{% urlencode %}a b{% include nosuchtpl %}`, `{% for i := 0; i < 2; i++ %}{% jsonquote %}"{% break %}{% endfor %}`, `{% counter c = 3 %}{% jsonquote %}{% exit %}`}
+		second := `he said "hi" <b>&</b> a b`
+		for k, f := range firsts {
+			for _, sep := range []string{"reset", "release"} {
+				h := &history{Reg: map[string][]dyntpl.VerifNode{}, Flits: map[string]float64{}, Budget: 8}
+				ic1 := manualCase((id0+k)*10, f, &DataEnv{}, h)
+				ic2 := manualCase((id0+k)*10+1, second, &DataEnv{}, h)
+				h.Steps = []*hStep{{Kind: "render", IC: ic1, Key: ic1.vc.Meta["key"].(string)}, {Kind: sep}, {Kind: "render", IC: ic2, Key: ic2.vc.Meta["key"].(string)}, {Kind: "reset"}}
+				h.run()
+				hs = append(hs, h)
+			}
+		}
 		// slot transitions: every ordered pair of variable kinds (13 x 13) in the same slots across a reset
 		id := n
 		for _, a := range slotKinds {
